@@ -27,5 +27,16 @@ theorem verdict : (classify Generated.factsC08).Sound (Holds (cfgOf Generated.fa
 #print axioms witness_paging
 #print axioms witness_label
 #print axioms witness_attribute
+#print axioms Hv.Query.bucket_tracks_store
+#print axioms Hv.Query.bucketRouteS_run
+#print axioms bucket_tracks_store_current
+#print axioms witness_bucket_served_before_drain
+#print axioms Hv.Query.leg_agree_same_kind
+#print axioms routes_agree_same_kind
+#print axioms current_same_kind
+#print axioms holdsS_of
+#print axioms refutes_of_witnessS
+#print axioms witness_bucket_misses_update
+#print axioms witness_bucket_drops_pending
 
 end Hv.C08
